@@ -4,7 +4,12 @@ Real code under contract (re-read on every run): hail/python/hail/expr/types.py 
 `_convert_from_encoding` of tint32, tint64, tfloat32, tfloat64, tbool, tstr, tarray, tset, tdict, tstruct, ttuple, tinterval,
 tlocus, tndarray (writer), HailType._missing / _to_encoding / _from_encoding), hail/python/hail/utils/byte_reader.py (every
 ByteWriter / ByteReader method), hail/python/hail/utils/misc.py (lookup_bit); engine side as a text scan:
-hail/hail/src/is/hail/types/encoded/EType.scala (fromPythonTypeEncoding) and the E-type files it names.  tcall: contracts/C34.py.
+hail/hail/src/is/hail/types/encoded/EType.scala (fromPythonTypeEncoding) and the E-type files it names.  tcall: one int32 token
+with the phase flag in bit 0, the ploidy in bits 1-2 and the allele representation above, for every ploidy (call_codec, on the
+value model of contracts/C34.py, which owns the agreement with the engine Call and the round trip).  The two call sites where
+values cross to the engine: hail/python/hail/ir/ir.py EncodedLiteral.encoded_value (value -> base64 text of exactly
+typ._to_encoding(value)) and hail/python/hail/backend/backend.py Backend.execute (the engine's bytes of ANY length, zero included,
+go whole to ir.typ._from_encoding unless the type is void) - and a closed-world scan that there is no third one.
 
 Two layers.
 
@@ -48,7 +53,7 @@ import z3
 
 from vc import core, pyvc
 from vc.pyclass import ClassIndex, Inliner
-from vc.pyvc import Contract, LoopSpec, SList, SRecord, Undecided, to_z3
+from vc.pyvc import Contract, LoopSpec, SExc, SList, SRecord, Undecided, to_z3
 
 TYPES = 'hail/python/hail/expr/types.py'
 BYTEIO = 'hail/python/hail/utils/byte_reader.py'
@@ -385,13 +390,54 @@ def container_calls(sl):
         return eng.call_builtin('len', node, st)
 
     def items_of(eng, st, args, kw, node):
-        if not (isinstance(args[0], SList) and args[0] is st.env['self'].fields['_field_types']):
-            raise Undecided('.items() of something that is not the field-type mapping')
-        return args[0]
+        if isinstance(args[0], SList) and args[0] is st.env['self'].fields['_field_types']:
+            return args[0]
+        if _same(args[0], eng.inputs.get('value')) and not getattr(eng, 'in_spec', False):
+            # `.items()` of the struct VALUE: a mapping lists its items in an order of ITS OWN (a dict / hl.Struct built in any
+            # key order is the same Hail value): some list of (name, value[name]) pairs, one per field of the type, names pairwise
+            # distinct - and nothing else is known about it; in particular NOT that it follows the type's field order
+            if 'VALUE_ITEMS' not in st.env:
+                ft = st.env['self'].fields['_field_types']
+                vi = pyvc.fresh_value(pyvc.parse_type('List[Tuple[U, U]]'), 'value_items')
+                s2 = st.fork()
+                s2.env.update({'VI_': vi, 'V_': args[0]})
+                for fact in ('len(VI_) == len(%s)' % FT,
+                             'forall(lambda i, j: implies(0 <= i and i < j and j < len(VI_), VI_[i][0] != VI_[j][0]))',
+                             'forall(lambda i: implies(0 <= i < len(VI_), V_[VI_[i][0]] == VI_[i][1]))',
+                             'forall(lambda i: implies(0 <= i < len(VI_), exists(lambda j: 0 <= j < len(%s) and %s[j][0] == VI_[i][0])))' % (FT, FT)):
+                    st.assume(eng.ev_bool_str(fact, s2))
+                st.env['VALUE_ITEMS'] = vi
+            return st.env['VALUE_ITEMS']
+        raise Undecided('.items() of something that is neither the field-type mapping nor the struct value')
+
+    def keys_of(eng, st, args, kw, node):
+        # `.keys()` / `.values()` of the struct value: the names / the values of its items, in the value's own order
+        vi = items_of(eng, st, args, kw, node)
+        if vi is st.env['self'].fields['_field_types'] and node.func.attr != 'keys':
+            raise Undecided('.values() of the field-type mapping')
+        i = z3.Int(pyvc.fresh_name('vk_i'))
+        return SList(vi.len, z3.Lambda([i], pyvc.sort_of(vi.et).accessor(0, 0 if node.func.attr == 'keys' else 1)(z3.Select(vi.arr, i))), 'U')
+
+    def type_by_name(eng, st, args, kw, node):
+        # self._field_types[name] / self[name] (tstruct.__getitem__, scanned): the type of the field of that name; KeyError for
+        # a name that is no field
+        cont, key = args
+        ft = st.env['self'].fields['_field_types']
+        if not (isinstance(key, z3.ExprRef) and key.sort() == pyvc.U) or not (cont is ft or cont is st.env['self']):
+            if cont is st.env['self']:
+                raise Undecided('subscript of the struct type with something that is not a field name')
+            return eng.index(cont, key, st, node)
+        j = z3.Int(pyvc.fresh_name('ft_j'))
+        name_at = lambda p: pyvc.sort_of(ft.et).accessor(0, 0)(z3.Select(ft.arr, p))
+        type_at = lambda p: pyvc.sort_of(ft.et).accessor(0, 1)(z3.Select(ft.arr, p))
+        eng.oblige(st, 'safety/field-type-looked-up-by-a-name-that-is-a-field@L%d' % node.lineno, z3.Exists([j], z3.And(0 <= j, j < ft.len, name_at(j) == key)), kind='safety')
+        r = z3.Const(pyvc.fresh_name('type_of_field'), pyvc.U)
+        st.assume(z3.ForAll([j], z3.Implies(z3.And(0 <= j, j < ft.len, name_at(j) == key), r == type_at(j))))
+        return r
 
     m = {'HailType._missing': missing_model}
     if sl.kind == 'struct':
-        m.update({'self.keys': keys, 'self.items': items, 'len': length, '.items': items_of})
+        m.update({'self.keys': keys, 'self.items': items, 'len': length, '.items': items_of, '.keys': keys_of, '.values': keys_of, 'subscript:self._field_types': type_by_name, 'subscript:self': type_by_name})
     if sl.kind == 'tuple':
         m['len'] = length
     return m
@@ -818,6 +864,211 @@ def from_encoding_contract(ctx):
     )
 
 
+# ---- tcall: one int32 token, bit-packed ------------------------------------------------------------------------------------------
+
+def call_codec(ctx):
+    """`bit-packed calls`: _tcall._convert_to_encoding writes exactly ONE int32 (the engine reads TCall as EInt32) whose bit 0 is
+    the phase flag, bits 1-2 the ploidy and bits 3.. the allele representation - for EVERY ploidy 0, 1, 2, phased or not; the
+    reader takes exactly one int32.  The real method bodies are executed with contracts/C34.py's value model (Python ints as
+    64-bit vectors with no-overflow obligations, one run per ploidy, alleles in the engine's range); that the engine builds the
+    very same int32, that no arithmetic step leaves 64 bits, the diploid pair index and that decoding gives the call back are
+    C34's claims (E)/(D) and are not repeated here."""
+    from contracts import C34
+
+    table = C34.small_table_python()
+    a0, a1 = z3.BitVecs('a0 a1', 32)
+    phased = z3.Bool('phased')
+    one = z3.BitVecVal(1, 64)
+    for ploidy in (0, 1, 2):
+        if ploidy == 2:
+            a0, a1 = z3.ZeroExt(17, z3.BitVec('a0', 15)), z3.ZeroExt(17, z3.BitVec('a1', 15))
+        dom = C34._domain(ploidy, a0, a1, phased)
+        A0, A1 = C34.bv64(a0), C34.bv64(a1)
+        writes = []
+
+        def write(eng, st, args, kw, node, writes=writes):
+            if len(args) != 1 or kw:
+                raise Undecided('write_int32 called with unexpected arguments')
+            st.env['WRITES'] = st.env['WRITES'] + 1
+            writes.append((list(st.pc), to_z3(args[0], 'bv64')))
+            return None
+
+        c = C34.encode_contract(ploidy, A0, A1, phased, [], dom)
+        c.calls = {'byte_writer.write_int32': write}
+        c.ghost_init = {'WRITES': '0'}
+        c.ensures = [('exactly-one-int32-is-written', 'WRITES == 1')]
+        c.raises = {}  # neither an assertion nor anything else may fail for a call in range
+        c.bv_checked = False  # that no step overflows 64 bits is discharged in C34, on the same bodies
+        eng = _run(ctx, c)
+        label = 'C33/' + eng.label
+        ctx.add(core.decided(label + '/the-int32-write-is-reached', bool(writes), '%d write(s)' % len(writes), kind='vacuity'))
+        j, k = (A0, z3.If(phased, A0 + A1, A1)) if ploidy == 2 else (A0, A0)
+        rep = {0: z3.BitVecVal(0, 64), 1: A0, 2: z3.UDiv(k * (k + 1), z3.BitVecVal(2, 64)) + j}[ploidy]
+        for pc_, w in writes:
+            hyp = list(dom) + list(pc_)
+            u = w & z3.BitVecVal(0xFFFFFFFF, 64)  # the 32 bits that reach the wire
+            ctx.add(core.valid(label + '/bit-0-is-the-phase-flag-for-every-ploidy', hyp, ((w & one) == one) == phased))
+            ctx.add(core.valid(label + '/bits-1-2-are-the-ploidy', hyp, (z3.LShR(u, 1) & z3.BitVecVal(3, 64)) == ploidy))
+            if ploidy < 2:  # the diploid pair index (a 15 x 15 bit multiplication) and its sign wrap are discharged once, in C34 (E)
+                ctx.add(core.valid(label + '/bits-3-up-are-the-allele-representation', hyp, z3.LShR(u, 3) == rep))
+                ctx.add(core.valid(label + '/value-fits-a-signed-int32', hyp, w == z3.SignExt(32, z3.Extract(31, 0, w))))
+        ctx.add(core.satisfiable(label + '/vacuity/a-phased-call-reaches-the-write', list(dom) + [z3.Or(*[z3.And(phased, *pc_) for pc_, _ in writes])], kind='vacuity'))
+    # reader: exactly one int32 is taken from the stream, whatever it holds (one run over an unconstrained 32-bit word)
+    r32 = z3.BitVec('wire_int32', 32)
+    ctor_paths = []
+
+    def read(eng, st, args, kw, node):
+        if args or kw:
+            raise Undecided('read_int32 called with arguments')
+        st.env['READS'] = st.env['READS'] + 1
+        return z3.SignExt(32, r32)
+
+    d = C34.decode_contract(0, r32, ctor_paths, table, ctx, (), hint=None)
+    d.label = '_tcall._convert_from_encoding'
+    d.bv_checked = False
+    d.calls = dict(d.calls, **{'byte_reader.read_int32': read, 'allele_pair_sqrt': lambda eng, st, args, kw, node: eng.uf('pair_of_index', ['bv64'], 'bv64')(to_z3(args[0], 'bv64')),
+                               'allele_pair': lambda eng, st, args, kw, node: eng.uf('packed_pair', ['bv64', 'bv64'], 'bv64')(to_z3(args[0], 'bv64'), to_z3(args[1], 'bv64'))})
+    d.ghost_init = {'READS': '0'}
+    d.ensures = [('exactly-one-int32-is-read', 'READS == 1')]
+    d.raises = {'*': 'READS == 1'}
+    _run(ctx, d)
+    ctx.add(core.decided('C33/_tcall._convert_from_encoding/the-Call-constructor-is-reached', bool(ctor_paths), '%d path(s)' % len(ctor_paths), kind='vacuity'))
+
+
+# ---- the call sites: Backend.execute (bytes from the engine -> value) and EncodedLiteral.encoded_value (value -> text for the engine)
+
+BACKEND = 'hail/python/hail/backend/backend.py'
+IRPY = 'hail/python/hail/ir/ir.py'
+TVOID = z3.Const('const_tvoid', pyvc.U)
+
+
+def _pair_funcs():
+    """contract-expression helpers over the value `execute` returns: `(value, timings) if timed else value` is a Python pair
+    on the timed paths and the bare value on the others"""
+    is_pair = lambda r: isinstance(r, tuple) and len(r) == 2
+    return {
+        'is_pair': pyvc.SFunc('is_pair', lambda eng, st, args, kw, node: z3.BoolVal(is_pair(args[0]))),
+        'value_part': pyvc.SFunc('value_part', lambda eng, st, args, kw, node: args[0][0] if is_pair(args[0]) else args[0]),
+        'timings_part': pyvc.SFunc('timings_part', lambda eng, st, args, kw, node: args[0][1] if is_pair(args[0]) else None),
+    }
+
+
+def execute_contract(timed):
+    """Backend.execute: whatever bytes the engine returns for an IR of a non-void type - of ANY length, a struct{} / tuple()
+    value is encoded in zero bytes - are handed, unchanged and whole, to `_from_encoding` of the IR's own type and its result
+    is the value returned; "no value" (None without decoding) exists only for IR of type void.  One contract per value of
+    `timed` (the two shapes of the returned value, a pair and a bare value, have no common sort)."""
+
+    def rpc(eng, st, args, kw, node):
+        if len(args) != 2 or kw:
+            raise Undecided('self._rpc called with unexpected arguments')
+        st.env['RPC_CALLS'] = st.env['RPC_CALLS'] + 1
+        failed = SExc('FatalError', term=z3.Const(pyvc.fresh_name('fatal_error'), pyvc.U))
+        return_pair = (st.env['ENGINE_BYTES'], to_z3(st.env['ENGINE_TIMINGS'], 'U'))
+        raise pyvc.Fork(node, [('engine-answers', None, 'value', return_pair), ('engine-fails', None, 'raise', failed)])
+
+    def decode(eng, st, args, kw, node):
+        if len(args) != 2 or kw:
+            raise Undecided('_from_encoding called with unexpected arguments')
+        st.env['DECODES'] = st.env['DECODES'] + 1
+        eng.oblige(st, 'decoded-by-the-type-of-the-ir-that-was-executed@L%d' % node.lineno, eng.equal(args[0], eng.getattr(st.env['ir'], 'typ', st, node)))
+        eng.oblige(st, 'decoder-gets-exactly-the-bytes-the-engine-returned@L%d' % node.lineno, eng.equal(args[1], st.env['ENGINE_BYTES']) if isinstance(args[1], SList) else z3.BoolVal(False))
+        return eng.uf('DECODED_BY', ['U', 'List[int]'], 'U')(to_z3(args[0], 'U'), to_z3(st.env['ENGINE_BYTES']))
+
+    opaque = lambda name: (lambda eng, st, args, kw, node: z3.Const(pyvc.fresh_name(name), pyvc.U))
+    non_void = 'ir.typ != tvoid'
+    return Contract(
+        path=BACKEND, qualname='Backend.execute', label='Backend.execute[timed=%s]' % timed, types={'ir': 'U', '.typ': 'U'},
+        setup=lambda eng, st: st.env.__setitem__('timed', timed),
+        self_fields={'functions': 'List[U]'}, extra_inputs={'ENGINE_BYTES': 'List[int]', 'ENGINE_TIMINGS': 'U'},
+        opaque_methods=True,  # any other method call is recorded and fails `no-call-outside-the-contract`
+        ghost_init={'RPC_CALLS': '0', 'DECODES': '0'},
+        consts=dict({'tvoid': TVOID, 'FatalError': 'FatalError'}, **_pair_funcs()),
+        spec_funcs={'DECODED_BY': (['U', 'List[int]'], 'U')},
+        calls={'ExecutePayload': opaque('payload'), 'self._render_ir': opaque('rendered_ir'), '.to_dataclass': opaque('fn_dataclass'), 'self._rpc': rpc,
+               '._from_encoding': decode, '.maybe_user_error': lambda eng, st, args, kw, node: args[0]},
+        ensures=[
+            ('the-engine-is-asked-exactly-once', 'RPC_CALLS == 1'),
+            ('every-non-void-type-returns-what-its-own-type-decodes-from-the-engine-bytes-whatever-their-length', 'implies(%s, DECODES == 1 and value_part(result) == DECODED_BY(ir.typ, ENGINE_BYTES))' % non_void),
+            ('only-void-yields-None-without-decoding', 'implies(not (%s), DECODES == 0 and value_part(result) is None)' % non_void),
+            ('timed-returns-the-pair-value-timings', 'is_pair(result) == timed and implies(timed, timings_part(result) == ENGINE_TIMINGS)'),
+        ],
+        raises={'FatalError': 'RPC_CALLS == 1 and DECODES == 0', '*': 'RPC_CALLS == 1 and DECODES == 0'},
+        canaries=[('never-decodes', 'DECODES == 0'), ('void-is-decoded-too', 'implies(not (%s), DECODES == 1)' % non_void)],
+    )
+
+
+def encoded_literal_contract():
+    """EncodedLiteral.encoded_value: the text put into the IR for the engine is the base64 text of exactly the bytes that the
+    literal's OWN type encodes the literal's OWN value to (computed once, then reused; a text handed in by copy() is kept)"""
+
+    def encode(eng, st, args, kw, node):
+        if len(args) != 2 or kw:
+            raise Undecided('_to_encoding called with unexpected arguments')
+        me = st.env['self'].fields
+        eng.oblige(st, 'encoded-by-the-type-of-the-literal@L%d' % node.lineno, eng.equal(args[0], me['_typ']))
+        eng.oblige(st, 'the-value-encoded-is-the-value-of-the-literal@L%d' % node.lineno, eng.equal(args[1], me['_value']))
+        return eng.uf('ENCODED_BY', ['U', 'U'], 'U')(to_z3(args[0], 'U'), to_z3(args[1], 'U'))
+
+    def b64(eng, st, args, kw, node):
+        if len(args) != 1 or kw:
+            raise Undecided('b64encode called with unexpected arguments')
+        return eng.uf('B64_OF', ['U'], 'U')(to_z3(args[0], 'U'))
+
+    def text(eng, st, args, kw, node):
+        if len(args) != 2 or args[1] not in ('utf-8', 'ascii'):
+            raise Undecided('bytes.decode with a codec other than the literal utf-8 / ascii')
+        return eng.uf('TEXT_OF', ['U'], 'U')(to_z3(args[0], 'U'))
+
+    sent = 'TEXT_OF(B64_OF(ENCODED_BY(self._typ, self._value)))'
+    return Contract(
+        path=IRPY, qualname='EncodedLiteral.encoded_value', types={'result': 'U'}, self_fields={'_typ': 'U', '_value': 'U', '_encoded_value': 'U'},
+        calls={'._to_encoding': encode, 'base64.b64encode': b64, '.decode': text},
+        opaque_methods=True,  # any other method call is recorded and fails `no-call-outside-the-contract`
+        spec_funcs={'ENCODED_BY': (['U', 'U'], 'U'), 'B64_OF': (['U'], 'U'), 'TEXT_OF': (['U'], 'U')},
+        ensures=[
+            ('text-sent-is-the-base64-of-the-bytes-this-type-encodes-this-value-to', 'implies(old(self._encoded_value) is None, result == %s)' % sent),
+            ('a-text-computed-earlier-is-reused-unchanged', 'implies(old(self._encoded_value) is not None, result == old(self._encoded_value))'),
+            ('type-and-value-of-the-literal-untouched', 'self._typ == old(self._typ) and self._value == old(self._value)'),
+        ],
+        raises={}, canaries=[('sends-the-value-itself', 'result == self._value')],
+    )
+
+
+def call_site_scan(ctx):
+    """closed world: outside expr/types.py the front end turns values into engine bytes and engine bytes into values nowhere but
+    in the two functions under contract above"""
+    root = os.path.join(core.REPO, 'hail', 'python', 'hail')
+    if not os.path.isdir(root):
+        raise Undecided('anchor-moved: hail/python/hail')
+    sites = []
+    for d, _, files in sorted(os.walk(root)):
+        for f in sorted(files):
+            if not f.endswith('.py'):
+                continue
+            rel = os.path.relpath(os.path.join(d, f), core.REPO)
+            if rel == TYPES:
+                continue
+            text = open(os.path.join(d, f), encoding='utf-8').read()
+            if not re.search(r'_(to|from)_encoding\b|_convert_(to|from)_encoding\b', text):
+                continue
+            tree = pyast.parse(text)
+            parents = {}
+            for n in pyast.walk(tree):
+                for ch in pyast.iter_child_nodes(n):
+                    parents[ch] = n
+            for n in pyast.walk(tree):
+                if isinstance(n, pyast.Attribute) and n.attr in ('_to_encoding', '_from_encoding', '_convert_to_encoding', '_convert_from_encoding'):
+                    q, cur = [], n
+                    while cur in parents:
+                        cur = parents[cur]
+                        if isinstance(cur, (pyast.FunctionDef, pyast.AsyncFunctionDef, pyast.ClassDef)):
+                            q.append(cur.name)
+                    sites.append('%s::%s uses %s' % (rel, '.'.join(reversed(q)), n.attr))
+    want = ['%s::Backend.execute uses _from_encoding' % BACKEND, '%s::EncodedLiteral.encoded_value uses _to_encoding' % IRPY]
+    ctx.add(core.decided('C33/call-sites/values-cross-to-the-engine-only-in-EncodedLiteral.encoded_value-and-Backend.execute', sorted(sites) == sorted(want), repr(sorted(sites))[:400], kind='frame'))
+
+
 def lookup_bit_contracts():
     """(byte >> which_bit) & 1 for each of the eight bit positions a missing byte has"""
     out = []
@@ -1087,6 +1338,13 @@ def _native(payload):
     return core.run_native(open(NATIVE).read(), payload)
 
 
+def native_witness(ctx):
+    """vc.check falls back to this when a changed source no longer fits the contract structure (Undecided / CheckerBug while the
+    contracts are applied): the native battery on the real code; a failing input it confirms is a violation whatever the contracts say"""
+    r = _native({})
+    return r if isinstance(r, dict) and r.get('confirmed') else {'confirmed': False}
+
+
 def _pattern(eng, model, sl):
     """the missing pattern of the counter-model's value, for the native replay"""
     try:
@@ -1163,6 +1421,11 @@ def build(ctx):
     _run(ctx, ndarray_writer())
     _run(ctx, to_encoding_contract())
     _run(ctx, from_encoding_contract(ctx))
+    call_codec(ctx)
+    for timed in (False, True):
+        _run(ctx, execute_contract(timed))
+    _run(ctx, encoded_literal_contract())
+    call_site_scan(ctx)
     python_scans(ctx)
     engine_scan(ctx)
     found = {}
@@ -1177,7 +1440,7 @@ def build(ctx):
     harness_broken = 'cases' not in r
     ctx.bounded_standin(
         'native-battery-real-codecs-against-the-reference-layout',
-        'the real codec classes (extracted by AST) over the real ByteReader/ByteWriter under /venv/bin/python: %s values (every missing pattern up to 10 slots, one-hot patterns up to 33 slots, non-ASCII strings, nested containers, dicts, sets, intervals, loci; no n-d arrays: numpy is not installed there) encoded, compared byte for byte with a little-endian reference encoder written from the property statement, decoded from both byte strings and compared with the original' % r.get('cases', 0),
+        'the real codec classes (extracted by AST) over the real ByteReader/ByteWriter under /venv/bin/python: %s values (every missing pattern up to 10 slots, one-hot patterns up to 33 slots, non-ASCII strings, nested containers, dicts, sets, intervals, loci, struct values listing their fields in another order than the type, calls of every ploidy phased and unphased; no n-d arrays: numpy is not installed there) encoded, compared byte for byte with a little-endian reference encoder written from the property statement, decoded from both byte strings and compared with the original; then the real Backend.execute (extracted by AST) over a stand-in engine answering with the reference bytes of %s values, zero-byte encodings (struct{}, tuple()) included' % (r.get('cases', 0), r.get('execute_cases', 0)),
         r.get('cases', 0), not r.get('confirmed'), r if (r.get('confirmed') or harness_broken) else '')
     if harness_broken:
         # a replay host that does not run is a defect of the machinery, never a pass
@@ -1201,4 +1464,9 @@ def build(ctx):
     ctx.undecided('tndarray numeric fast path (write_bytes(value.data) / np.frombuffer): proved only that it is taken iff `self.element_type in _numeric_types`; that membership is false for every HailType instance (set of classes, HailType.__eq__ - scanned; evaluated natively for the five numeric types), so the path is dead today; were it live, a C-ordered array would be written row-major')
     ctx.undecided('whole-value round trip for arbitrarily nested types: follows from the per-constructor lemmas by structural induction (paper step), not mechanised')
     ctx.undecided('the Scala decoders (EArray / EBaseStruct / EBinary ... _buildDecoder) reading the layout: text scan only')
-    ctx.undecided('trngstate, tvoid, tstream, tcall (C34) and the call sites (EncodedLiteral, backend) are not part of this check')
+    if r.get('execute_harness_error'):
+        raise core.CheckerBug('native battery: %s' % r['execute_harness_error'])
+    ctx.assume('tcall: the method bodies are executed with the value model of contracts/C34.py (one run per ploidy 0, 1, 2, alleles in the engine range, Python ints as 64-bit vectors); that no step overflows 64 bits, the diploid pair index, the agreement with the engine Call and the round trip are discharged in C34, not here')
+    ctx.assume('call sites: ExecutePayload / _render_ir / IRFunction.to_dataclass / FatalError.maybe_user_error, base64.b64encode and bytes.decode are uninterpreted; the engine either answers with (bytes, timings) or raises FatalError; HailType.__eq__ against tvoid is equality of types')
+    ctx.assume('a struct value is a mapping whose own item order is arbitrary (a list of (name, value[name]) pairs over exactly the fields of the type, names distinct); the contracts assume nothing else about `value.items()`')
+    ctx.undecided('trngstate, tstream and the JSON codecs are not part of this check; tvoid has no encoding (both codec methods raise); the base64 transport and the engine-side decoding of EncodedLiteral are not examined')
